@@ -42,7 +42,7 @@ TOKENS = [
     (b"te", b"trailers"), (b"te", b"gzip"), (b"TE", b"trailers"),
     (b"cookie", b"a" * 19), (b"cookie", b"a" * 20), (b"authorization", b"secret"), (b"proxy-authorization", b"secret"),
     (b"Authorization", b"secret"),
-    (b" x-ws ", b" v "), (b"x-tab", b"\tv\t"), (b"X-Upper", b"V"), (b"x-empty", b""), (b"x-a", b"1"),
+    (b" x-ws ", b" v "), (b"x-tab", b"\t\r\nv\x0b\x0c\t"), (b"X-Upper", b"V"), (b"x-empty", b""), (b"x-a", b"1"),
     (b"content-type", b"text/plain"), (b":Method", b"GET"),
     # fields that only become sensitive / comparable once they are normalised, and empty values of the two fields that must agree
     (b"authorization ", b"secret"), (b" Proxy-Authorization", b"s"), (b" cookie", b"sid=1"), (b"cookie", b"  " + b"a" * 17 + b"  "),
